@@ -370,6 +370,10 @@ class Interp:
                 f.kind = "staticmethod"
             elif short == "property":
                 f.kind = "property"
+            elif short == "cached_property":
+                f.kind = "cached_property"  # functools.cached_property: computed once, stored in the instance __dict__
+                f.decorators.append(dn)
+                continue
             elif short == "classmethod":
                 f.kind = "classmethod"
             if short in ("docstring_from", "inherit_docstring") and isinstance(d, ast.Call):
@@ -758,6 +762,26 @@ class Interp:
             rest = stmts[i + 1 :]
             if isinstance(st, ast.Match):
                 return self.exec_stmts(self._lower_match(st, env, mi) + rest, env, mi, k)
+            if isinstance(st, ast.For) and not st.orelse and not getattr(st, "_usa_lowered", False) and any(isinstance(n_, ast.Return) for b_ in st.body for n_ in _walk_no_defs(b_)) and not any(isinstance(n_, (ast.Break, ast.Continue)) for b_ in st.body for n_ in _walk_no_defs(b_)):
+                # a search loop (`for a in xs: if p(a): return a`) over a collection held by an external object:
+                # one uninterpreted element under the guard "non-empty", then the statements after the loop
+                itv = self.eval(st.iter, env, mi)
+                const = ast.Constant(value=itv)
+                ast.copy_location(const, st)
+                if self.concrete_iter_peek(itv) is None and isinstance(itv, (TV, Obj)) and not (isinstance(itv, TV) and itv.kind == "tensor"):
+                    cond = ast.Constant(value=T("nonempty", (_term(itv),)))
+                    elem = ast.Constant(value=TV(T("elem", (_term(itv),)), kind="opaque"))
+                    asg = ast.Assign(targets=[st.target], value=elem)
+                    node = ast.If(test=cond, body=[asg, *st.body], orelse=[])
+                    for x_ in (cond, elem, asg, node):
+                        ast.copy_location(x_, st)
+                    ast.fix_missing_locations(node)
+                    self.log("havoc-loop", st, iter=itv)
+                    return self.exec_stmts([node] + rest, env, mi, k)
+                st2 = ast.For(target=st.target, iter=const, body=st.body, orelse=st.orelse)
+                ast.copy_location(st2, st)
+                st2._usa_lowered = True  # type: ignore[attr-defined]
+                return self.exec_stmts([st2] + rest, env, mi, k)
             if isinstance(st, ast.If):
                 cond = self.truth(self.eval(st.test, env, mi), st)
                 if cond is True:
@@ -1239,6 +1263,12 @@ class Interp:
             return [node]
         return []
 
+    def concrete_iter_peek(self, it: Any) -> Optional[List[Any]]:
+        """concrete_iter without consuming a one-shot iterable."""
+        if isinstance(it, OneShot):
+            return [] if it.consumed else list(it)[it.pos :]
+        return self.concrete_iter(it)
+
     def concrete_iter(self, it: Any) -> Optional[List[Any]]:
         if isinstance(it, OneShot):
             if it.consumed:
@@ -1495,7 +1525,7 @@ class Interp:
             elif isinstance(v, ast.FormattedValue):
                 try:
                     val = self.eval(v.value, env, mi)
-                    parts.append(val if isinstance(val, str) else "{" + fmt(_term(val)) + "}")
+                    parts.append(format_value(val))
                 except Unsupported:
                     parts.append("{?}")
         return "".join(parts)
@@ -1800,6 +1830,11 @@ class Interp:
                 if isinstance(r, FuncV):
                     if r.kind == "property":
                         return self.call_function(r, [v], {}, node)
+                    if r.kind == "cached_property":
+                        val_ = self.call_function(r, [v], {}, node)
+                        if val_ is not BOTTOM:
+                            v.attrs[attr] = val_
+                        return val_
                     if r.kind == "staticmethod":
                         return r
                     if r.kind == "classmethod":
@@ -1887,13 +1922,11 @@ class Interp:
                 return r
             return Unknown(f"symbolic index {fmt(idx)} into concrete sequence")
         if isinstance(v, dict):
-            if _hashable(idx) and idx in v:
-                return v[idx]
-            for k, val in v.items():
-                if struct_eq(k, idx) is True:
-                    return val
-            self.log("raise", node, exc="KeyError")
-            return BOTTOM
+            def missing() -> Any:
+                self.log("raise", node, exc="KeyError")
+                return BOTTOM
+
+            return self.dict_lookup(v, idx, missing, node)
         if isinstance(v, (TV, Obj)):
             if isinstance(v, Obj) and "__getitem__" in v.attrs:
                 return self.call_function(v.attrs["__getitem__"], [idx], {}, node)
@@ -1915,6 +1948,39 @@ class Interp:
         if isinstance(v, (ExtV, ClassV)):
             return v  # typing subscripts: Dict[...], Optional[...]
         raise Unsupported(f"subscript of {type(v).__name__}")
+
+    def dict_lookup(self, d: Dict[Any, Any], idx: Any, missing: Callable[[], Any], node: Any) -> Any:
+        """d[idx] / d.get(idx): keys that are equal to a symbolic index only under a condition
+        give a γ-value (the entry under that condition, else the next candidate / `missing`)."""
+        if _hashable(idx) and idx in d:
+            return d[idx]
+        cands: List[Tuple[Any, Any]] = []
+        for k, val in d.items():
+            r = self.compare(ast.Eq(), k, idx, node)
+            if r is True:
+                cands.append((True, val))
+                break
+            if r is False:
+                continue
+            if isinstance(r, Gamma) or not _is_cond(r):
+                raise Unsupported("dictionary lookup with an undecidable key comparison")
+            cands.append((r, val))
+
+        def build(i: int) -> Any:
+            if i >= len(cands):
+                return missing()
+            c, val = cands[i]
+            if c is True:
+                return val
+            pol = self.guard_lookup(c)
+            if pol is True:
+                return val
+            if pol is False:
+                return build(i + 1)
+            rest = self._guarded(c, False, lambda: build(i + 1))
+            return self.mkgamma(c, val, rest)
+
+        return build(0)
 
     def e_Yield(self, n: ast.Yield, env: Env, mi: ModInfo) -> Any:
         if self._ctx_yield and self._ctx_yield[-1][0] == self.depth:
@@ -2226,7 +2292,7 @@ def _dict_method(it: Interp, d: Dict[Any, Any], attr: str, a: List[Any], k: Dict
     if attr == "values":
         return list(d.values())
     if attr == "get":
-        return d.get(a[0], a[1] if len(a) > 1 else None)
+        return it.dict_lookup(d, a[0], lambda: (a[1] if len(a) > 1 else None), None)
     if attr == "setdefault":
         return d.setdefault(a[0], a[1] if len(a) > 1 else None)
     if attr == "update":
@@ -2269,7 +2335,35 @@ def _list_method(it: Interp, l: List[Any], attr: str, a: List[Any], k: Dict[str,
     raise Unsupported(f"list.{attr}")
 
 
+def format_value(val: Any) -> str:
+    """Text of a formatted value: strings as they are, anything else a `{...}` placeholder
+    (the digits are not decided; that a value *is* printed is)."""
+    return val if isinstance(val, str) else "{" + fmt(_term(val)) + "}"
+
+
+def _str_format(s: str, a: List[Any], k: Dict[str, Any]) -> str:
+    import string as _string
+
+    out, auto = [], 0
+    for lit, field, _spec, _conv in _string.Formatter().parse(s):
+        out.append(lit)
+        if field is None:
+            continue
+        head = field.split(".")[0].split("[")[0]
+        if head == "":
+            val = a[auto] if auto < len(a) else "{?}"
+            auto += 1
+        elif head.isdigit():
+            val = a[int(head)] if int(head) < len(a) else "{?}"
+        else:
+            val = k.get(head, "{?}")
+        out.append(format_value(val) if head == field else "{" + field + "}")
+    return "".join(out)
+
+
 def _str_method(s: str, attr: str, a: List[Any], k: Dict[str, Any]) -> Any:
+    if attr == "format":
+        return _str_format(s, a, k)
     if attr in ("startswith", "endswith", "replace", "split", "strip", "lower", "upper", "format", "join"):
         try:
             return getattr(s, attr)(*a, **k)
